@@ -544,6 +544,69 @@ fn scalar_history(r: &mut StdRng, tr: &mut Tr, len: usize, extreme: Option<i32>)
     n
 }
 
+/// Directed history: a coefficient that is an APPROXIMATE ZERO whose true value is not zero (a unit was lost when it was
+/// added to 2^70, then the stored mantissas cancelled exactly), used as left AND right operand of every binary operation in
+/// every written form. Only ordinary events (new / add / sub / mul), so the exact ghosts of Trace_Scalar judge it (Honest).
+fn cancel_history(r: &mut StdRng, tr: &mut Tr) -> usize {
+    tr.group();
+    tr.emit(json!({"k": "begin", "machine": "scalar", "regs": 5, "extreme": 0}));
+    let mut regs: Vec<Scalar4> = vec![Scalar4::zero(); 5];
+    let mut n = 0;
+    let k = r.random_range(0..4usize);
+    let mut newev = |regs: &mut Vec<Scalar4>, t: usize, co: [i64; 4], p: i32, tr: &mut Tr| {
+        let mut e = json!({"k": "s", "op": "new", "coeffs": co.iter().map(|x| int_json(*x)).collect::<Vec<_>>(), "pow": p, "r": t + 1});
+        match guarded(|| Scalar4::new(co, p)) {
+            Ok(s) => {
+                regs[t] = s;
+                e["res"] = json!("ok");
+                e["out"] = raw4(&s);
+            }
+            Err(m) => {
+                e["res"] = json!("panic");
+                e["msg"] = json!(m);
+            }
+        }
+        tr.emit(e);
+    };
+    let mut unit = [0i64; 4];
+    unit[k] = if r.random_bool(0.5) { 1 } else { -1 };
+    let mut big = [0i64; 4];
+    big[k] = 1;
+    newev(&mut regs, 0, big, 66 + r.random_range(0..12), tr);
+    newev(&mut regs, 1, unit, r.random_range(-1..2), tr);
+    let mut bin = |regs: &mut Vec<Scalar4>, op: &str, form: &str, a: usize, b: usize, t: usize, tr: &mut Tr| {
+        let (x, y) = (regs[a], regs[b]);
+        let mut e = json!({"k": "s", "op": op, "form": form, "a": a + 1, "b": b + 1, "r": t + 1});
+        match guarded(|| (binary(op, form, x, y), binary(op, "own_own", x, y))) {
+            Ok((s, own)) => {
+                regs[t] = s;
+                e["res"] = json!("ok");
+                e["out"] = raw4(&s);
+                e["own"] = raw4(&own);
+            }
+            Err(m) => {
+                e["res"] = json!("panic");
+                e["msg"] = json!(m);
+            }
+        }
+        tr.emit(e);
+    };
+    bin(&mut regs, "add", "own_own", 0, 1, 2, tr); // 2^70 + unit: the unit is lost, flagged
+    bin(&mut regs, "sub", "own_own", 2, 0, 3, tr); // minus 2^70: stored 0, flagged, true value = unit
+    n += 4;
+    let co = [r.random_range(-3..4), r.random_range(-3..4), r.random_range(-3..4), r.random_range(1..4)];
+    newev(&mut regs, 4, co, r.random_range(-3..4), tr);
+    n += 1;
+    for _ in 0..10 {
+        let op = ["mul", "mul", "add", "sub"][r.random_range(0..4)];
+        let form = FORMS[r.random_range(0..FORMS.len())];
+        let (a, b) = if r.random_bool(0.5) { (4, 3) } else { (3, 4) };
+        bin(&mut regs, op, form, a, b, 2, tr);
+        n += 1;
+    }
+    n
+}
+
 pub fn record(args: &[String], seed: u64, tr: &mut Tr) -> Value {
     let nd: usize = arg_num(args, "--dyadic", 20);
     let ns: usize = arg_num(args, "--scalar", 20);
@@ -557,6 +620,10 @@ pub fn record(args: &[String], seed: u64, tr: &mut Tr) -> Value {
     }
     for i in 0..ns {
         os += scalar_history(&mut r, tr, len, extreme(i));
+    }
+    // directed: approximate zeros with a non-zero true value as operands (one per three scalar histories)
+    for _ in 0..ns.div_ceil(3) {
+        os += cancel_history(&mut r, tr);
     }
     json!({"dyadic_histories": nd, "dyadic_ops": od, "scalar_histories": ns, "scalar_ops": os, "extreme_histories": (0..nd).chain(0..ns).filter(|i| i % 6 == 5).count()})
 }
